@@ -3,6 +3,7 @@ open SSVerif.Jsgf
 #print axioms C05_representable_iff_graph
 #print axioms C05_compile_iff_graph
 #print axioms C05_graph_decides
+#print axioms C05_refused_iff_graph
 #print axioms C05_expand_iff_graphB
 #print axioms mem_reachList
 #print axioms reachList_closed
